@@ -125,3 +125,38 @@ func HarnessC06_LongStrings() {
 	}
 	vReach("longstrings")
 }
+
+// HarnessC06_RefDupKeys: a conformant encoder may repeat a key inside an object or ECMA array;
+// the library decodes every property, in order, and stays aligned.
+func HarnessC06_RefDupKeys() {
+	kind := []uint8{3, 8}[vChoice(2)]
+	r := &refVal{kind: kind}
+	n := 2 + vChoice(2)
+	for i := 0; i < n; i++ {
+		r.keys = append(r.keys, vStr(vChoice(2)))
+		if vChoice(2) == 0 {
+			r.vals = append(r.vals, &refVal{kind: 5})
+		} else {
+			b := vBool()
+			r.vals = append(r.vals, &refVal{kind: 1, b: b, tb: 1})
+		}
+	}
+	// an empty key followed by anything but the end marker is a property; an empty key directly
+	// before the end marker would be the terminator itself, so the last key is not empty
+	vAssume(len(r.keys[n-1]) > 0)
+	outer := &refVal{kind: 3, keys: []string{"o", "z"}, vals: []*refVal{r, {kind: 6}}}
+	data := refEncode(outer, false)
+	a, err := Discovery(data)
+	vAssert(err == nil, "Discovery accepts the encoding")
+	if err != nil {
+		return
+	}
+	err = a.UnmarshalBinary(data)
+	vAssert(err == nil, "library decodes a conformant encoding with repeated keys")
+	if err != nil {
+		return
+	}
+	vAssert(matches(a, outer, false), "every property is decoded, in order, and the value after the container is still aligned")
+	vAssert(a.Size() == len(data), "Size() equals the encoding's length")
+	vReach("ref-dupkeys")
+}
